@@ -189,7 +189,7 @@ func init() {
 			ID: "C08",
 			Runs: []Run{
 				{Harness: "zzverif/zzh.ZZC08Text", Desc: "exclude-checks as raw text (any case/blanks/empty items): ReadIgnoreAnnotations + IgnoreSet.Contains drop code c at any position iff an item names ALL, c's category or c", Bounds: map[string]interface{}{"text_bytes": 9, "commas": 2, "codes": 7}},
-				{Harness: "zzverif/zzh.ZZC08AllCheckers", Desc: "two-package program producing all 13 IMM/CTOR/TONL/PKGO codes; exclude-checks = 0..2 tokens from {ALL, 5 categories, 6 codes, junk, prefix look-alike}: reported set == unrestricted set minus matching codes, for report-time (IMM, CTOR) and detection-time (TONL, PKGO) filters alike", Bounds: map[string]interface{}{"tokens": "0..2 of 14", "program": "allSrcD + allSrcU"}},
+				{Harness: "zzverif/zzh.ZZC08AllCheckers", Desc: "two-package program producing all 13 IMM/CTOR/TONL/PKGO codes (15 diagnostics, one unrelated @ignore marker in the middle); exclude-checks = 0..2 tokens from {ALL, 5 categories, 6 codes, junk, prefix look-alike}: reported set == unrestricted set minus matching codes, for report-time (IMM, CTOR) and detection-time (TONL, PKGO) filters alike", Bounds: map[string]interface{}{"tokens": "0..2 of 14", "program": "allSrcD + allSrcU"}},
 			},
 			Outside:     []string{"flag/env plumbing of the value (C18)", "IMPL codes in the L1 harness (covered by the text harness and C05)", "more than two tokens at once in the L1 harness"},
 			Assumptions: []string{"as C01-C04"},
@@ -235,7 +235,7 @@ func init() {
 			Runs: []Run{
 				{Harness: "reporting.ZZC17Report", Desc: "the single reporter for an arbitrary violation (16 documented codes + unknown, any 4-byte message, any position), one marker (8 tokens, any range) and one global token (5): Report is called iff the violation's OWN code is not suppressed at its OWN position, at that position, with a message starting error: [that code]", Bounds: map[string]interface{}{"codes": 17, "marker_tokens": 8, "global_tokens": 5, "range": "[1,2^31)"}},
 				{Harness: "zzverif/zzh.ZZC17WellFormed", Desc: "all-codes program, one analyzer at a time, with readable sources: [CODE] prefix with a documented code of the analyzer's category, no second code, located in the analysed package's file on the offending line, excerpt shows that line, help link = category page (frozen table). Concrete program: this harness is executed by the interpreter and natively, no symbolic input", Bounds: map[string]interface{}{"program": "allSrcD + allSrcU", "codes": 13}},
-				{Harness: "zzverif/zzh.ZZC17Inline", Desc: "inline '// @ignore CODE' with the displayed code on any <= 2 of the 13 diagnostic lines: exactly those diagnostics disappear", Bounds: map[string]interface{}{"markers": "<= 2 of 13"}},
+				{Harness: "zzverif/zzh.ZZC17Inline", Desc: "inline '// @ignore CODE' with the displayed code on any <= 2 of the 15 diagnostic lines (incl. a continuation line of a multi-line call and the last line of the file): exactly those diagnostics disappear", Bounds: map[string]interface{}{"markers": "<= 2 of 15"}},
 			},
 			Outside:     []string{"process exit status and -json rendering (x/tools multichecker)", "IMPL codes (see C05)", "real-world corpora"},
 			Assumptions: []string{"as C01-C04"},
@@ -278,6 +278,7 @@ func init() {
 			ID: "C10",
 			Runs: []Run{
 				{Harness: "zzverif/zzh.ZZC10Stress1", Desc: "two packages full of constructs the checkers do not specialise for (generic types/functions, func/array/interface/anonymous-struct types, embedded fields, unnamed and blank receivers, labels, method expressions and values, type switches, double pointers, map/slice element selectors, universe-type methods, package-level initialiser); ANY of 10 comment spellings (6 keywords, @ignore ALL, unknown qualifier...) on any one of 10 declarations; all five analyzers on both packages: every path ends normally", Bounds: map[string]interface{}{"declarations": 10, "annotated_at_a_time": 1, "spellings": 10}},
+				{Harness: "zzverif/zzh.ZZC10StressImm", Desc: "the same with the struct S fixed @immutable and any one other declaration (its embedded field, methods, generic function, imported package) carrying any spelling", Bounds: map[string]interface{}{"declarations": 11, "annotated_at_a_time": "S + 1"}},
 				{Harness: "zzverif/zzh.ZZC10Stress2", Tier: "thorough", Desc: "the same with any two declarations annotated", Bounds: map[string]interface{}{"annotated_at_a_time": 2}},
 				{Harness: "zzverif/zzh.ZZC01Init", Desc: "package-level initialisers before any function (the nil-dereference fixed in b62e6d5)", Bounds: map[string]interface{}{}},
 			},
